@@ -197,6 +197,9 @@ void set_exact_fit(bool on);
 // from here on, exceeding the step budget ends the run as abandoned instead of reporting a hang (for inputs whose
 // legitimate cost is known to be astronomical: see has_long_exponent in worlds/common.hpp)
 void set_soft_budget(bool on);
+// a run whose step clock stands still for 20 s is abandoned instead of reported (for inputs known to keep a register-only
+// loop of the library busy for seconds); the step budget itself stays hard
+void set_stall_abandon(bool on);
 
 // ---------------------------------------------------------------------------------------------
 // Tasks
